@@ -115,6 +115,21 @@ let handle toks =
     let c = reverse_velocities { c_ids = lst ',' str_of_hex ids; c_pos = rows pos; c_vel = rows vel; c_box = lst ',' q_of_string box } in
     let orows r = out_lst ";" (fun r -> out_lst "," string_of_q r) r in
     String.concat "|" [out_lst "," hex_of_str c.c_ids; orows c.c_pos; orows c.c_vel; out_lst "," string_of_q c.c_box]
+  | ["fxhist"; dir; ops] ->
+    (* directory: name:frame,frame;...  operations: src.k.out;...  answer, per operation:
+       <frame read from the output>@<directory after it>, "N" when the operation fails *)
+    let d = lst ';' (pair_of ':' nat_of_string (lst ',' nat_of_string)) dir in
+    let op s = match String.split_on_char '.' s with
+      | [a; k; o] -> { o_src = nat_of_string a; o_k = nat_of_string k; o_out = nat_of_string o }
+      | _ -> failwith "bad operation" in
+    let os = lst ';' op ops in
+    let show_dir d = out_lst ";" (fun (n, c) -> string_of_nat n ^ ":" ^ out_lst "," string_of_nat c) d in
+    let rec go os tr = match os, tr with
+      | o :: os', Some d' :: tr' -> (string_of_option string_of_nat (fx_read d' o.o_out) ^ "@" ^ show_dir d') :: go os' tr'
+      | _, None :: _ -> ["N"]
+      | _, _ -> [] in
+    let final = match fx_run d os with None -> "N" | Some d' -> show_dir d' in
+    out_lst "|" (fun x -> x) (go os (fx_trace d os)) ^ "=" ^ final
   | _ -> "ERR bad command"
 
 let () = main_loop handle
